@@ -77,6 +77,40 @@ static std::string qmean(Toks& t) {
     Out o; o.s("ok"); o.m(res); return o.str();
 }
 
+// ---- the same templates instantiated with DerivedScalar = float (inputs are float-representable doubles)
+static std::string f_ops(const std::string& op, Toks& t) {
+    Out o; o.s("ok");
+    if (op == "qexpf") {
+        long n = t.nat(); MatrixXf r = t.mat(3, n).cast<float>(); t.done();
+        MatrixXf res = bfl::utils::rotation_vector_to_quaternion(r);
+        if (res.rows() != 4 || res.cols() != n) return shape_err(res.rows(), res.cols(), 4, n);
+        o.m(res.cast<double>().eval());
+    } else if (op == "qlogf") {
+        long n = t.nat(); MatrixXf q = t.mat(4, n).cast<float>(); t.done();
+        MatrixXf res = bfl::utils::quaternion_to_rotation_vector(q);
+        if (res.rows() != 3 || res.cols() != n) return shape_err(res.rows(), res.cols(), 3, n);
+        o.m(res.cast<double>().eval());
+    } else if (op == "qsumf") {
+        long m = t.nat(), n = t.nat(); if (m < 1) throw vh::BadArgs("m");
+        MatrixXf q = t.mat(4, m).cast<float>(); MatrixXf r = t.mat(3, n).cast<float>(); t.done();
+        MatrixXf res = bfl::utils::sum_quaternion_rotation_vector(q, r);
+        if (res.rows() != 4 || res.cols() != n) return shape_err(res.rows(), res.cols(), 4, n);
+        o.m(res.cast<double>().eval());
+    } else if (op == "qdifff") {
+        long n = t.nat(), m = t.nat(); if (m < 1) throw vh::BadArgs("m");
+        MatrixXf ql = t.mat(4, n).cast<float>(); MatrixXf qr = t.mat(4, m).cast<float>(); t.done();
+        MatrixXf res = bfl::utils::diff_quaternion(ql, qr);
+        if (res.rows() != 3 || res.cols() != n) return shape_err(res.rows(), res.cols(), 3, n);
+        o.m(res.cast<double>().eval());
+    } else {
+        long n = t.nat(); VectorXf w = t.vec(n).cast<float>(); MatrixXf q = t.mat(4, n).cast<float>(); t.done();
+        MatrixXf res = bfl::utils::mean_quaternion(w, q);
+        if (res.rows() != 4 || res.cols() != 1) return shape_err(res.rows(), res.cols(), 4, 1);
+        o.m(res.cast<double>().eval());
+    }
+    return o.str();
+}
+
 int main() {
     return vh::run([](const std::string& op, Toks& t, std::string& out) {
         if (op == "qexp") { out = qexp(t); return true; }
@@ -84,6 +118,7 @@ int main() {
         if (op == "qsum") { out = qsum(t); return true; }
         if (op == "qdiff") { out = qdiff(t); return true; }
         if (op == "qmean") { out = qmean(t); return true; }
+        if (op == "qexpf" || op == "qlogf" || op == "qsumf" || op == "qdifff" || op == "qmeanf") { out = f_ops(op, t); return true; }
         return false;
     });
 }
